@@ -200,6 +200,115 @@ class LockScenario:
         }
 
 
+def fork_unit(unit):
+    """Separate OS processes (real fork): the parent creates the lock object
+    and acquires it; a forked child, using the inherited object or a fresh
+    one, must be refused release and must have to wait for acquire; after the
+    parent releases the child acquires at once.  A process that would have to
+    wait shows up as the library going to sleep (SpinDetected)."""
+    import diskcache as dc
+    import os
+    import pickle
+    from ..env import SpinDetected
+    _, kind, target, inherited, depth = unit
+    part = {'states': 0, 'transitions': 0, 'executions': 0, 'violations': [],
+            'outcomes': {}, 'samples': [], 'caps': [], 'label': 'fork/' + kind}
+    root = run.fresh_dir('fk')
+    ENV.reset(run.scratch())
+    ENV.set_client(0)
+    if target == 'fanout':
+        cache = dc.FanoutCache(root, shards=2)
+    else:
+        cache = dc.Cache(root)
+
+    def make(c):
+        if kind == 'lock':
+            return dc.Lock(c, 'L')
+        if kind == 'rlock':
+            return dc.RLock(c, 'L')
+        return dc.BoundedSemaphore(c, 'L', value=1)
+
+    lock = make(cache)
+    for _ in range(depth):
+        lock.acquire()
+
+    def child(steps):
+        r, w = os.pipe()
+        pid = os.fork()
+        if pid == 0:
+            code = 0
+            try:
+                os.close(r)
+                mine = lock if inherited else make(
+                    dc.FanoutCache(root, shards=2) if target == 'fanout'
+                    else dc.Cache(root))
+                out = []
+                for step in steps:
+                    try:
+                        getattr(mine, step)()
+                        out.append('ok')
+                    except SpinDetected:
+                        out.append('waits')
+                    except BaseException as exc:
+                        out.append(type(exc).__name__)
+                os.write(w, pickle.dumps(out))
+            except BaseException:
+                code = 3
+            finally:
+                os._exit(code)
+        os.close(w)
+        data = b''
+        while True:
+            chunk = os.read(r, 65536)
+            if not chunk:
+                break
+            data += chunk
+        os.close(r)
+        os.waitpid(pid, 0)
+        return pickle.loads(data) if data else ['child-failed']
+
+    def expect(tag, got, want):
+        part['transitions'] += 1
+        part['executions'] += 1
+        part['outcomes'][tag + ':' + ','.join(got)] = 1
+        if got != want:
+            part['violations'].append({
+                'signature': {'clause': 'process-exclusion', 'kind': kind,
+                              'step': tag},
+                'message': 'process-exclusion: %s on %s (child uses %s '
+                           'object, parent holds it %d time(s)): %s: child '
+                           'observed %r, expected %r'
+                           % (kind, target, 'the inherited' if inherited
+                              else 'its own', depth, tag, got, want),
+                'replay': {'engine': 'SCHED', 'module': 'props.c15',
+                           'fork': list(unit)}})
+
+    try:
+        # held by the parent: the child must wait
+        expect('acquire-while-held', child(['acquire']), ['waits'])
+        if kind == 'rlock':
+            expect('release-not-owner', child(['release']),
+                   ['AssertionError'])
+            expect('release-then-acquire', child(['release', 'acquire']),
+                   ['AssertionError', 'waits'])
+        for i in range(depth):
+            if i < depth - 1:
+                lock.release()
+                expect('acquire-while-still-held', child(['acquire']),
+                       ['waits'])
+            else:
+                lock.release()
+        # free: the child acquires and releases at once
+        expect('acquire-when-free', child(['acquire', 'release']),
+               ['ok', 'ok'])
+        # the child holds it when it dies?  (not part of the property)
+        part['states'] = part['transitions']
+    finally:
+        cache.close()
+        run.drop(root)
+    return part
+
+
 def plan(tier):
     units = []
     kinds = [('lock', 1), ('rlock', 1), ('semaphore', 1), ('semaphore', 2),
@@ -231,6 +340,8 @@ def plan(tier):
 
 
 def work(unit):
+    if unit[0] == 'fork':
+        return fork_unit(unit[:5])
     kind, n, rounds, value, target, mode, script, bound, cap = unit
     part = sched.explore(
         lambda: LockScenario(kind, n, rounds, value, target, mode, script),
@@ -243,7 +354,13 @@ def work(unit):
 def main(tier, seed):
     rep = run.Report('C15', tier, seed, TECHNIQUE)
     cap = 240 if tier == 'quick' else 3000
-    units = run.shuffled([u + (cap,) for u in plan(tier)], seed)
+    units = [u + (cap,) for u in plan(tier)]
+    for kind in ('lock', 'rlock', 'semaphore'):
+        for target in ('cache', 'fanout'):
+            for inherited in (True, False):
+                for depth in ((1, 2) if kind == 'rlock' else (1,)):
+                    units.append(('fork', kind, target, inherited, depth))
+    units = run.shuffled(units, seed)
     import os
     for part in run.pmap(work, units):
         rep.merge(part, part.get('label'))
@@ -254,6 +371,10 @@ def main(tier, seed):
         'contenders': '2 (all interleavings, 1 round; 2 rounds with <=2 '
                       'preemptions in quick, all in thorough), 3-4 '
                       'preemption-bounded',
+        'processes': 'real fork: parent holds Lock/RLock(1,2 deep)/Semaphore, '
+                     'child with the inherited or its own object must wait / '
+                     'be refused release / acquire once free; Cache and '
+                     'FanoutCache',
         'kinds': 'Lock, RLock (incl. nested, wrong-party release), '
                  'BoundedSemaphore 1..3, barrier(Lock); Cache and '
                  'FanoutCache(2 shards); shared and own Cache objects',
@@ -268,6 +389,12 @@ def main(tier, seed):
 
 
 def replay(rp):
+    if 'fork' in rp:
+        run._worker_init()
+        part = fork_unit(tuple(rp['fork']))
+        for v in part['violations'][:3]:
+            print('REPRODUCED:', v['message'])
+        return 1 if part['violations'] else 0
     d = rp['describe']
     sc = LockScenario(d['kind'], d['contenders'], d['rounds'], d['value'],
                       d['target'], d['mode'], d['script'])
